@@ -230,6 +230,25 @@ def run(ctx):
         if r.cls != "error" or r.stdout != b"":
             ctx.violation("reject-invalid-utf8", dict(op="hex decode", stdin_hex=b.hex()), dict(exit="error", stdout=""),
                           dict(exit=r.cls, stdout=short(r.stdout)))
+    # DATA naming a file that is literally called "-" through a directory: that is a file, only the bare "-" is standard input
+    dd = os.path.join(tmpdir, "dashdir")
+    os.makedirs(dd, exist_ok=True)
+    payload = rbytes(rng, 40)
+    dr = []
+    open(os.path.join(dd, "-"), "wb").write(payload)
+    dr.append(dict(args=["hex", "encode", os.path.join(dd, "-")], stdin=b"\x01\x02", want=b"0x" + payload.hex().encode() + b"\n"))
+    dr.append(dict(args=["hex", "encode", "./-"], stdin=b"", cwd=dd, want=b"0x" + payload.hex().encode() + b"\n"))
+    r1 = ctx.cli(dr)
+    open(os.path.join(dd, "-"), "wb").write(b"0x" + payload.hex().encode())
+    dr2 = [dict(args=["hex", "decode", os.path.join(dd, "-")], stdin=b"0xff", want=payload), dict(args=["hex", "decode", "./-"], stdin=b"zz", cwd=dd, want=payload)]
+    r2 = ctx.cli(dr2)
+    for rn, r in zip(dr + dr2, r1 + r2):
+        ctx.count("file-named-dash")
+        ctx.distinct(("dash", tuple(rn["args"]), rn.get("cwd")))
+        if r.cls != "ok" or r.stdout != rn["want"]:
+            ctx.violation("file-named-dash-is-a-file", dict(op="hdwallet " + " ".join(rn["args"]), cwd=rn.get("cwd")), short(rn["want"]), str(r)[:300])
+    os.remove(os.path.join(dd, "-"))
+    os.rmdir(dd)
     # DATA named by a path that is a pipe (/dev/stdin): length unknown in advance
     pr = []
     for d in (b"hello", rbytes(rng, 300), rbytes(rng, 70000), b""):
